@@ -96,6 +96,11 @@ func (m *Mutex) TryLock() bool {
 func (m *Mutex) Unlock() {
 	s := cur
 	if !m.held {
+		if Dead() {
+			// a deferred unlock run while a dead process is being unwound: in reality nothing
+			// runs after the process has died, and the lock may be in any state
+			return
+		}
 		// locked outside a simulation
 		m.real.Unlock()
 		return
@@ -258,6 +263,9 @@ func (m *RWMutex) Lock() {
 //go:norace
 func (m *RWMutex) Unlock() {
 	if !m.w {
+		if Dead() {
+			return // see Mutex.Unlock
+		}
 		m.real.Unlock()
 		return
 	}
@@ -280,6 +288,9 @@ func (m *RWMutex) RLock() {
 //go:norace
 func (m *RWMutex) RUnlock() {
 	if m.readers == 0 {
+		if Dead() {
+			return // see Mutex.Unlock
+		}
 		m.real.RUnlock()
 		return
 	}
